@@ -48,6 +48,11 @@ class Polynomial:
 
     def __init__(self, comps):
         self.comps = [[(c, tuple(e)) for c, e in comp] for comp in comps]
+        n = len(self.comps)
+        # the identity map is given a callable that RETURNS ITS ARGUMENT (a legitimate user function)
+        self.identity = n >= 2 and all(len(comp) == 1 and comp[0][0] == 1 and len(comp[0][1]) == n
+                                       and tuple(comp[0][1]) == tuple(int(i == r) for i in range(n))
+                                       for r, comp in enumerate(self.comps))
 
     def _mono(self, c, e, x, skip=None):
         out = float(c)
@@ -59,6 +64,8 @@ class Polynomial:
         return out
 
     def value(self, x):
+        if self.identity:
+            return x
         v = [sum(self._mono(c, e, x) for c, e in comp) for comp in self.comps]
         return float(v[0]) if len(v) == 1 else array(v, dtype=float)
 
@@ -268,6 +275,22 @@ class Replayer:
     def matches(self, got, e):
         return self.same(got[0], e[2]) and self.same(got[1], e[3])
 
+    def results_are_values(self, node: Node, e):
+        """ResultsAreValues: what evaluate / jac returned at a point (kept by the caller, NOT copied) is still
+        the specification's value after the same function has been evaluated at another point."""
+        x, other = e[1], e[1] + 1.0
+        v = node.obj.evaluate(x.copy())
+        j = node.obj.jac(x.copy())
+        with np.errstate(all="ignore"):
+            try:
+                node.obj.evaluate(other.copy())
+                node.obj.jac(other.copy())
+            except Exception:  # noqa: BLE001 - the other point need not be admissible (zero denominator ...)
+                pass
+        v = np.atleast_1d(np.asarray(v, dtype=float)).ravel()
+        j = np.atleast_2d(np.asarray(j.toarray() if hasattr(j, "toarray") else j, dtype=float))
+        return self.same(v, e[2]) and self.same(j, e[3])
+
     def check_case(self, tree, pt, ev, ej, obs):
         sub, top = self.entries(pt, ev, ej, obs)
         try:
@@ -277,11 +300,12 @@ class Replayer:
             before = [self.observe(self.node_at(root, e[0]), e[1]) for e in sub]
             root.obj = self.construct(tree, kids)
             got = self.observe(root, top[1])
+            held = self.results_are_values(root, top)
             again = np.atleast_1d(np.asarray(root.obj.evaluate(top[1].copy()), dtype=float)).ravel()
             after = [self.observe(self.node_at(root, e[0]), e[1]) for e in sub]
             # Rebuild action of the specification: the same operation built again over the same operands
             rebuilt = self.observe(Node(tree, self.construct(tree, kids), kids), top[1]) if kids else got
-            ok = (self.matches(got, top) and self.same(again, top[2]) and self.matches(rebuilt, top)
+            ok = (self.matches(got, top) and held and self.same(again, top[2]) and self.matches(rebuilt, top)
                   and all(self.matches(g, e) for g, e in zip(before, sub))
                   and all(self.matches(g, e) for g, e in zip(after, sub)))
         except Exception:  # noqa: BLE001
@@ -339,6 +363,13 @@ class Replayer:
                                              {"at": e[1].tolist(), "impl": j.tolist(), "spec": e[3].tolist()}))
                     except Exception as ex:  # noqa: BLE001
                         problems.append(exc("Jacobian", ex))
+                    if not problems:
+                        try:
+                            if not self.results_are_values(self.build(t), e):
+                                problems.append(("ResultsAreValues", {}, {"at": e[1].tolist(),
+                                                                          "then_evaluated_at": (e[1] + 1.0).tolist()}))
+                        except Exception as ex:  # noqa: BLE001
+                            problems.append(exc("ResultsAreValues", ex))
                     if problems:
                         break
                 # (b) the subtrees below, observed before the operation is built over them, after it is built,
